@@ -174,3 +174,11 @@ CASES += [
     {"name": "iu_energy converts wavelengths linearly (the repaired defect)", "kind": "mutant", "rule": "C05-U18", "edits": [
         ("quantarhei/core/managers.py", "            if units == \"nm\":\n                # wavelength is inversely proportional to energy\n                return (1.0/val)/x\n", "", 1)]},
 ]
+
+_DF5 = "quantarhei/core/dfunction.py"
+CASES += [
+    {"name": "splines built on the axis points in the caller's units (the repaired defect)", "kind": "mutant", "rule": "C05-U12", "edits": [
+        (_DF5, "        with energy_units(\"int\"):\n            xdata = self.axis.data\n        self._spline_r", "        xdata = self.axis.data\n        self._spline_r", 1)]},
+    {"name": "internal axis points read through a second name", "kind": "twin", "edits": [
+        (_DF5, "        with energy_units(\"int\"):\n            xdata = self.axis.data\n        self._spline_r", "        with energy_units(\"int\"):\n            xint = self.axis.data\n        xdata = xint\n        self._spline_r", 1)]},
+]
